@@ -112,6 +112,24 @@ class Contract(object):
         self.notes.append(note)
         return self
 
+    def trace(self, name, fn):
+        """fn(events, outcome, exc) -> True or a message; checked on every path.  Events are
+        tuples recorded by the executor: ('call', qualname), ('return', qualname),
+        ('raise', class name), ('external', name), ('send', taint), ('recv', kind),
+        ('log', level, taint, function), ('field.write', id, name), ('db', op, ...)."""
+        if not hasattr(self, 'traces_'):
+            self.traces_ = []
+        self.traces_.append((name, fn))
+        return self
+
+    def native_check(self, fn):
+        """fn(pre_inputs, post_inputs, raised) -> True | message.  Extra check used only by
+        the replay harness for obligations whose witness is not an execution (invariants)."""
+        if not hasattr(self, 'native_checks_'):
+            self.native_checks_ = []
+        self.native_checks_.append(fn)
+        return self
+
     def use_variant(self, name):
         """While proving this contract, callees that have a variant of this name are
         used through that variant (whose preconditions are then proved at the call)."""
